@@ -18,6 +18,8 @@ func main() {
 	switch os.Args[1] {
 	case "session":
 		err = cmdSession(os.Args[2:])
+	case "viso":
+		err = cmdViso(os.Args[2:])
 	default:
 		err = fmt.Errorf("unknown sub-command %q", os.Args[1])
 	}
